@@ -140,6 +140,23 @@ fn unary_all(rng: &mut Rng64, n: usize, l: &str, out: &mut Out, subsets: &[usize
     }
 }
 
+/// argument of a prepared big-operand case: a literal field or a reference to a (big, small) operand pair
+#[derive(Clone)]
+enum A { Lit(String), Big(usize), Small(usize) }
+
+/// emits the next prepared big-operand case, if any
+fn emit_big(q: &mut Vec<(&'static str, Vec<A>)>, ops: &[(String, String)], out: &mut Out) -> bool {
+    match q.pop() {
+        Some((key, args)) => {
+            let ins: Vec<String> = args.iter().map(|a| match a {
+                A::Lit(x) => x.clone(), A::Big(k) => ops[*k].0.clone(), A::Small(k) => ops[*k].1.clone() }).collect();
+            run(key, &ins, out);
+            true
+        }
+        None => false,
+    }
+}
+
 pub fn gen(tier: Tier, rng: &mut Rng64, out: &mut Out) {
     let thorough = tier == Tier::Thorough;
     // --- exhaustive: all pairs of functions over n <= 2, every outer table, every subset
@@ -169,6 +186,55 @@ pub fn gen(tier: Tier, rng: &mut Rng64, out: &mut Out) {
             }
         }
     }
+    // --- operands with more than 65 536 nodes (pointers that do not fit 16 bits: memo keys, node indices):
+    // a dense pseudo-random function over 20 variables (~107 000 nodes) through var_exists / var_for_all
+    // on low / middle / high variables, exists / for_all over one or two variables, and
+    // binary_op_with_exists / for_all against a small partner (a literal or a parity) on either side.
+    // The cases are prepared here and emitted at regular intervals inside the two loops below, so that the
+    // runner's contiguous shards each get a few of them (they cost ~1 s each in the Lean driver).
+    let bigs = if thorough { 8 } else { 2 };
+    let mut bigs_ops: Vec<(String, String)> = vec![];
+    let mut bigq: Vec<(&'static str, Vec<A>)> = vec![];
+    for k in 0..bigs {
+        let n = 20usize;
+        let tt: Vec<bool> = (0..(1usize << n)).map(|_| rng.bool()).collect();
+        let big = fmt_bdd(&bdd_of_tt(n, &tt));
+        let small = if k % 2 == 0 {
+            fmt_bdd(&bdd_of_tt(n, &(0..(1usize << n)).map(|i| (i >> 3) & 1 == 1).collect::<Vec<_>>())) // literal x16
+        } else {
+            let m: usize = (rng.next() as usize & ((1 << n) - 1)) | (1 << 12) | (1 << 16); // parity incl. x7, x3
+            fmt_bdd(&bdd_of_tt(n, &(0..(1usize << n)).map(|i| (i & m).count_ones() % 2 == 1).collect::<Vec<_>>()))
+        };
+        bigs_ops.push((big, small));
+        let (b, sm) = (A::Big(k), A::Small(k));
+        let l = |x: &str| A::Lit(s(x));
+        let ex_vars: [usize; 3] = [k % 2, 9 + (k % 3), 19 - (k % 2)];
+        let all_vars: [usize; 3] = [1 - (k % 2), 12 - (k % 3), 18 + (k % 2)];
+        for x in ex_vars { bigq.push(("C03.varex", vec![b.clone(), A::Lit(x.to_string())])); }
+        for x in all_vars { bigq.push(("C03.varall", vec![b.clone(), A::Lit(x.to_string())])); }
+        let one = [rng.below(n as u64) as usize];
+        let two = [3 + rng.below(4) as usize, 11 + rng.below(8) as usize];
+        let (e, f): (&[usize], &[usize]) = if k % 2 == 0 { (&one, &two) } else { (&two, &one) };
+        bigq.push(("C03.exists", vec![b.clone(), A::Lit(fmt_usizes(e)), A::Lit(fmt_usizes(&reorder(rng, e)))]));
+        bigq.push(("C03.forall", vec![b.clone(), A::Lit(fmt_usizes(f)), A::Lit(fmt_usizes(&reorder(rng, f)))]));
+        let and = eager_table2(8);
+        let ins1 = vec![l("20"), A::Lit(and.clone()), l("8"), b.clone(), sm.clone(), l("3,7"), l("7,3,3")];
+        let ins2 = vec![l("20"), A::Lit(and.clone()), l("8"), sm.clone(), b.clone(), l("3,7"), l("7,7,3")];
+        if k % 2 == 0 {
+            bigq.push(("C03.exq", ins1)); bigq.push(("C03.allq", ins2));
+        } else {
+            bigq.push(("C03.allq", ins1)); bigq.push(("C03.exq", ins2));
+        }
+        if thorough {
+            let tabs = outer_tables(rng);
+            let tab = rng.pick(&tabs).clone();
+            bigq.push(("C03.exq", vec![l("20"), A::Lit(tab.0.clone()), A::Lit(tab.1.to_string()), sm.clone(), b.clone(), l("3,7"), l("3,7,3")]));
+            bigq.push(("C03.nested", vec![l("20"), A::Lit(and.clone()), l("8"), sm.clone(), b.clone(),
+                A::Lit(((1u64 << 3) | (1 << 7)).to_string()), l("or"), l("14")]));
+        }
+    }
+    bigq.reverse();
+    let big_half = (bigq.len() as u64 + 1) / 2;
     // --- n = 3: all 256 functions for the unary operations; pairs sampled (quick) / all (thorough)
     let all3: Vec<String> = (0..256u64).map(|t| fmt_bdd(&bdd_of_tt(3, &tt_from_index(3, t)))).collect();
     for (i, l) in all3.iter().enumerate() {
@@ -177,10 +243,11 @@ pub fn gen(tier: Tier, rng: &mut Rng64, out: &mut Out) {
             unary_all(rng, 3, l, out, &subsets);
         }
     }
-    let pairs3: u64 = if thorough { 65536 } else { 1400 };
+    let pairs3: u64 = if thorough { 65536 } else { 1000 };
     for i in 0..pairs3 {
         let (a, b) = if thorough { ((i / 256) as usize, (i % 256) as usize) } else { (rng.below(256) as usize, rng.below(256) as usize) };
         let (l, r) = (&all3[a], &all3[b]);
+        if i % (pairs3 / big_half).max(1) == 0 && bigq.len() as u64 > big_half { emit_big(&mut bigq, &bigs_ops, out); }
         let tabs = outer_tables(rng);
         for m in 0..8usize {
             let tab = rng.pick(&tabs).clone();
@@ -201,8 +268,9 @@ pub fn gen(tier: Tier, rng: &mut Rng64, out: &mut Out) {
     // --- random operands over 4..6 variables (quick) / 4..8 (thorough); non-canonical operands;
     //     random subsets, all-variables-quantified cases (inner-cache sharing), lists mentioning
     //     variables outside the Bdd, arbitrary trigger masks
-    let rounds = if thorough { 120000 } else { 3000 };
-    for _ in 0..rounds {
+    let rounds = if thorough { 120000 } else { 2400 };
+    for i in 0..rounds {
+        if i % (rounds / big_half).max(1) == 0 { emit_big(&mut bigq, &bigs_ops, out); }
         let n = 4 + rng.below(if thorough { 5 } else { 3 }) as usize;
         let mut l = random_bdd(rng, n);
         let mut r = if rng.chance(1, 6) { l.clone() } else { random_bdd(rng, n) };
@@ -233,6 +301,7 @@ pub fn gen(tier: Tier, rng: &mut Rng64, out: &mut Out) {
         let x = rng.below(n as u64) as usize;
         run(if rng.bool() { "C03.varex" } else { "C03.varall" }, &[rs.clone(), x.to_string()], out);
     }
+    while emit_big(&mut bigq, &bigs_ops, out) {}
     // --- operands with different variable counts: nested_apply panics
     for _ in 0..(if thorough { 200 } else { 20 }) {
         let n = 1 + rng.below(4) as usize;
